@@ -1148,7 +1148,9 @@ class PyCdlib:
 
                 if is_dir:
                     if new_record.rock_ridge is not None and new_record.rock_ridge.relocated_record():
-                        self._rr_moved_record = new_record
+                        # The directory that holds a relocated record is the
+                        # one where further relocated directories go.
+                        self._rr_moved_record = dir_record
 
                     if new_record.is_dotdot() and new_record.rock_ridge is not None and new_record.rock_ridge.parent_link_record_exists():
                         # Make sure to mark a dotdot record with a parent link
